@@ -72,7 +72,23 @@ def attrs_in(e):
     return out
 
 
-def cone(ctx, fi, expr, depth=3, _seen=None):
+def _names_outside_indices(e):
+    """names of an expression, not counting those that only select an element (inside a subscript's index)"""
+    out = set()
+
+    def walk(x):
+        if isinstance(x, ast.Subscript):
+            walk(x.value)
+            return
+        if isinstance(x, ast.Name):
+            out.add(x.id)
+        for y in ast.iter_child_nodes(x):
+            walk(y)
+    walk(e)
+    return out
+
+
+def cone(ctx, fi, expr, depth=3, _seen=None, control=True, loops=True, indices=True):
     """Backward dependence cone of an expression inside fi: the set of names and dotted attribute
     chains the value may depend on, following local assignments (data dependence), the tests of the
     ifs/loops enclosing those assignments (control dependence) and the return expressions of
@@ -84,7 +100,8 @@ def cone(ctx, fi, expr, depth=3, _seen=None):
     local_done = set()
     while work:
         e = work.pop()
-        out |= names_in(e) | attrs_in(e)
+        e_names = names_in(e) if indices else _names_outside_indices(e)
+        out |= e_names | attrs_in(e)
         for c in [x for x in ast.walk(e) if isinstance(x, ast.Call)]:
             if depth > 0:
                 for q in call_targets(ctx, fi, c):
@@ -93,8 +110,8 @@ def cone(ctx, fi, expr, depth=3, _seen=None):
                         continue
                     _seen.add(q)
                     for r in [n for n in walk_body(g.node) if isinstance(n, ast.Return) and n.value is not None]:
-                        out |= {("%s" % x) for x in cone(ctx, g, r.value, depth - 1, _seen)}
-        for nm in list(names_in(e)):
+                        out |= {("%s" % x) for x in cone(ctx, g, r.value, depth - 1, _seen, control, loops, indices)}
+        for nm in list(e_names):
             if nm in local_done or nm in fi.params:
                 continue
             local_done.add(nm)
@@ -105,20 +122,24 @@ def cone(ctx, fi, expr, depth=3, _seen=None):
                 elif isinstance(n, ast.AugAssign):
                     tg, val = [n.target], n.value
                 elif isinstance(n, (ast.For, ast.comprehension)):
+                    if not loops:
+                        continue
                     tg, val = [n.target], n.iter
                 elif isinstance(n, ast.Call) and isinstance(n.func, ast.Attribute) and dotted(n.func.value) == nm \
                         and n.func.attr in ("append", "add", "extend", "update", "insert"):
                     for a in n.args:
                         work.append(a)
-                    for anc in _enclosing_tests(fi, n):
-                        work.append(anc)
+                    if control:
+                        for anc in _enclosing_tests(fi, n):
+                            work.append(anc)
                     continue
                 if tg is None:
                     continue
                 if any(isinstance(x, ast.Name) and x.id == nm for t in tg for x in ast.walk(t)):
                     work.append(val)
-                    for anc in _enclosing_tests(fi, n):
-                        work.append(anc)
+                    if control:
+                        for anc in _enclosing_tests(fi, n):
+                            work.append(anc)
     return out
 
 
@@ -161,4 +182,61 @@ def must_call_nodes(ctx, fi, cfg, target_quals, depth=3, _seen=None):
             if depth > 0 and all(prog.has_func(q) and must_call(ctx, prog.func(q), target_quals, depth - 1, _seen) for q in callees):
                 out.append(n)
                 break
+    return out
+
+
+def backward_slice(ctx, fi, expr, depth=2, frames=None, _seen=None):
+    """Expressions the value of `expr` is computed from: [(frames, ast expr)] where frames is the chain
+    ((FuncInfo, {param: caller arg expr}), ...) from fi down to the function containing the expression.  Follows local
+    assignments (and augmented assignments), and the bodies of resolved package helpers called in those expressions."""
+    prog = ctx.prog
+    frames = frames if frames is not None else ((fi, {}),)
+    _seen = _seen if _seen is not None else set()
+    out = []
+    work = [expr]
+    done = set()
+    while work:
+        e = work.pop()
+        if id(e) in _seen:
+            continue
+        _seen.add(id(e))
+        out.append((frames, e))
+        for c in [x for x in ast.walk(e) if isinstance(x, ast.Call)]:
+            if depth > 0:
+                for q in call_targets(ctx, fi, c):
+                    g = prog.functions.get(q)
+                    if g is None or g.is_generator:
+                        continue
+                    ps = [p for p in g.params if not (g.cls is not None and not g.is_static and p in ("self", "cls"))]
+                    binding = {}
+                    for p, a in zip(ps, c.args):
+                        binding[p] = a
+                    for k in c.keywords:
+                        if k.arg:
+                            binding[k.arg] = k.value
+                    for r in [n for n in walk_body(g.node) if isinstance(n, ast.Return) and n.value is not None]:
+                        out += backward_slice(ctx, g, r.value, depth - 1, frames + ((g, binding),), _seen)
+        for nm in names_in(e):
+            if nm in done:
+                continue
+            done.add(nm)
+            for n in walk_body(fi.node):
+                if isinstance(n, ast.Assign) and any(isinstance(x, ast.Name) and x.id == nm for t in n.targets for x in ast.walk(t)):
+                    work.append(n.value)
+                elif isinstance(n, ast.AugAssign) and isinstance(n.target, ast.Name) and n.target.id == nm:
+                    work.append(n.value)
+    return out
+
+
+def data_roots(ctx, frames, expr):
+    """names of the OUTERMOST function that `expr` (inside the innermost frame) is computed from by data flow alone (no control
+    dependence, not through loop variables); parameters of inner frames are traced to the caller's argument expressions"""
+    fi, binding = frames[-1]
+    names = cone(ctx, fi, expr, depth=1, control=False, loops=False, indices=False)
+    if len(frames) == 1:
+        return {n for n in names if not n.startswith(".")}
+    out = set()
+    for n in names:
+        if n in binding:
+            out |= data_roots(ctx, frames[:-1], binding[n])
     return out
